@@ -146,7 +146,7 @@ func marshalUnknownValue(rng cty.ValueRange, path cty.Path, enc *msgpack.Encoder
 	return nil
 }
 
-func unmarshalUnknownValue(dec *msgpack.Decoder, ty cty.Type, path cty.Path) (cty.Value, error) {
+func unmarshalUnknownValue(dec *msgpack.Decoder, ty cty.Type, path cty.Path) (ret cty.Value, err error) {
 	// The next item in the stream should be a msgpack extension value,
 	// which might be zero-length for a totally unknown value, or it might
 	// contain a mapping describing some type-specific refinements.
@@ -207,6 +207,15 @@ func unmarshalUnknownValue(dec *msgpack.Decoder, ty cty.Type, path cty.Path) (ct
 		// in a backward-compatible way.
 		return cty.UnknownVal(ty), nil
 	}
+
+	// The refinement builder panics when asked for contradictory refinements.
+	// This description comes from outside, so that is an input error here.
+	defer func() {
+		if r := recover(); r != nil {
+			ret = cty.DynamicVal
+			err = path.NewErrorf("failed to decode msgpack extension body: invalid refinements: %v", r)
+		}
+	}()
 
 	builder := cty.UnknownVal(ty).Refine()
 	for i := 0; i < entryCount; i++ {
